@@ -1,20 +1,9 @@
 //! fvh — flurry verification harness.  See /verif/DESIGN.md.
 #![allow(clippy::type_complexity, clippy::too_many_arguments, dead_code, static_mut_refs)]
 
-mod alloc;
-mod checks;
-mod conc;
-mod hb;
-mod lin;
-mod sched;
-mod inspect;
-mod model;
-mod runner;
-mod seq;
-mod setseq;
-mod types;
 
-use runner::{Ctx, ShardOut, Tier, Viol};
+use fvh::runner::{self, Ctx, ShardOut, Tier, Viol};
+use fvh::{alloc, checks, verif_dir};
 use serde_json::{json, Value};
 use std::io::Write;
 use std::path::{Path, PathBuf};
@@ -23,23 +12,6 @@ use std::time::{Duration, Instant};
 
 #[global_allocator]
 static GLOBAL: alloc::Quarantine = alloc::Quarantine;
-
-pub struct PropDef {
-    pub id: &'static str,
-    pub level: &'static str,
-    pub rule: &'static str,
-    pub assumptions: &'static [&'static str],
-    pub run_shard: fn(&Ctx, &mut ShardOut),
-    /// Err = the violation reproduces
-    pub replay: fn(&str, &Value) -> Result<(), runner::CaseFail>,
-    pub shards: fn(Tier) -> usize,
-    /// seconds after which the parent gives up (exit 2)
-    pub watchdog: fn(Tier) -> u64,
-}
-
-pub fn verif_dir() -> PathBuf {
-    std::env::var("VERIF_DIR").map(PathBuf::from).unwrap_or_else(|_| PathBuf::from("/verif"))
-}
 
 fn usage() -> ! {
     eprintln!("usage: fvh run <prop> --tier quick|thorough [--seed N] [--jobs N]\n       fvh shard <prop> --tier T --seed N --shard I --nshards N --out F --inflight F\n       fvh replay <prop> <file>\n       fvh list");
